@@ -656,3 +656,155 @@ Proof.
     rewrite Hrel in Hu. rewrite <- Hi1 in Hi, He.
     by eapply (release_key_complete w1 _ _ _ _ _ Hi Hfs Hu).
 Qed.
+
+(** * 5. One resync pass *)
+Lemma rchg_KK K P i i' : rchg K K i i' → rchg K P i i'.
+Proof.
+  intros H y. destruct (H y) as [?|(e & He & Hk & [?|(e' & He' & Hc)])]; [by left| |].
+  - right. exists e. split_and!; try done. by left.
+  - right. exists e. split_and!; try done. right. exists e'. split; [done|]. left. by destruct Hc.
+Qed.
+
+(** the frame of one resync item: nothing, or a release-side change of the item's key *)
+Lemma resync_section_frame w ip o ocl fl : Inv2 (w_ipam w) →
+  same_env w (resync_section w ip o ocl fl).1 ∧ Inv2 (w_ipam (resync_section w ip o ocl fl).1) ∧
+  (i_alloc (w_ipam (resync_section w ip o ocl fl).1) = i_alloc (w_ipam w) ∨
+   ∃ e, i_alloc (w_ipam w) !! ip = Some e ∧ resync_skip e (Keys.parse_key (e_key e)) = false ∧
+        pod_running w (Keys.ko_ns (Keys.parse_key (e_key e))) (Keys.ko_pod (Keys.parse_key (e_key e))) (e_uid e) = false ∧
+        rchg (e_key e) (Keys.pool_prefix (Keys.parse_key (e_key e))) (w_ipam w) (w_ipam (resync_section w ip o ocl fl).1)).
+Proof.
+  intros Hi. pose proof (resync_section_cases w ip o ocl fl) as Hc.
+  destruct (i_alloc (w_ipam w) !! ip) as [e|] eqn:He.
+  2:{ rewrite Hc. split_and!; [apply same_env_refl|done|by left]. }
+  cbv zeta in Hc. destruct (resync_skip _ _) eqn:Hs.
+  { rewrite Hc. split_and!; [apply same_env_refl|done|by left]. }
+  destruct (pod_running _ _ _ _) eqn:Hr.
+  { rewrite Hc. split_and!; [apply same_env_refl|done|by left]. }
+  destruct Hc as [(w1 & r1 & Henv & Hi1 & -> & _)|(w1 & Hpre & ->)]; cbn [fst].
+  { split_and!; [done|by rewrite Hi1|left; by rewrite Hi1]. }
+  destruct (pre_cleared_facts w w1 (e_key e) Hi Hpre) as (Hi1 & _ & Hc1 & _). destruct Hpre as [Henv1 _].
+  destruct (unbind_any_frame w1 (Keys.parse_key (e_key e)) (e_policy e) o fl Hi1) as (Henv2 & Hi2 & Hc2).
+  rewrite parse_key_key in Hc2.
+  split_and!; [by eapply same_env_trans|done|]. right. exists e. split_and!; try done.
+  eapply rchg_trans; [apply rchg_KK, Hc1|exact Hc2].
+Qed.
+
+Lemma rchg_dom K P i i' x : rchg K P i i' → is_Some (i_alloc i' !! x) → is_Some (i_alloc i !! x).
+Proof. intros H Hx. destruct (H x) as [<-|(e & -> & _)]; [done|by eexists]. Qed.
+
+(** nothing is left to do for the IP [x]: an entry under a pod key whose pod is not running and that the pass
+    does not skip is one the policy keeps for the pod *)
+Definition done_at (w : world) (x : N) : Prop :=
+  ∀ e q, i_alloc (w_ipam w) !! x = Some e → wf_pod q → e_key e = pod_key q → e_policy e ≤ 2 →
+         resync_skip e (keyobj_of q) = false → pod_running w (pd_ns q) (pd_name q) (e_uid e) = false →
+         policy_verdict w (keyobj_of q) (e_policy e) = KeepForPod.
+
+Lemma pod_running_empty_uid w ns name u : pod_running w ns name [] = false → pod_running w ns name u = false.
+Proof.
+  unfold pod_running. destruct (_ || _)%bool; [done|]. intros H. apply orb_false_iff in H as [H1 H2].
+  assert (∀ q, running_and_uid [] q = false → running_and_uid u q = false) as Hq.
+  { intros [q|]; [|done]. unfold running_and_uid. cbn [Keys.is_empty negb andb]. intros ->. by destruct (_ && _)%bool. }
+  by rewrite (Hq _ H1), (Hq _ H2).
+Qed.
+
+Lemma resync_skip_cleared e e' k : e_key e' = e_key e → e_policy e' = e_policy e → e_uid e' = [] → e_node e' = [] →
+  resync_skip e' k = false → resync_skip e k = false.
+Proof.
+  unfold resync_skip. intros -> -> -> ->. cbn [Keys.is_empty andb].
+  destruct (Keys.is_empty (e_key e)), (Keys.is_empty (Keys.ko_pod k)), (Keys.is_empty (Keys.ko_app k)); cbn [orb]; try done.
+  intros H. rewrite <- !andb_assoc, H. by rewrite !andb_false_r.
+Qed.
+
+Lemma done_at_env w w' x : same_env w w' → i_alloc (w_ipam w') !! x = i_alloc (w_ipam w) !! x → done_at w x → done_at w' x.
+Proof.
+  intros Henv E Hd e q He Wq Hk Hpol Hskip Hrun. rewrite E in He. rewrite (pod_running_env _ _ _ _ _ Henv) in Hrun.
+  destruct Henv as (_ & _ & _ & Hs & _). apply (verdict_pod_ext w w'); [done|]. by apply Hd.
+Qed.
+
+Lemma done_at_stable w y o ocl fl x : Inv2 (w_ipam w) → done_at w x → done_at (resync_section w y o ocl fl).1 x.
+Proof.
+  intros Hi Hd. destruct (resync_section_frame w y o ocl fl Hi) as (Henv & _ & [E|(ey & _ & _ & _ & Hc)]).
+  { apply (done_at_env w); [done|by rewrite E|done]. }
+  destruct (Hc x) as [E|(e & He & Hk & [Hn|(e' & He' & Hcl)])].
+  - by apply (done_at_env w).
+  - intros e1 q He1. congruence.
+  - intros e1 q He1 Wq Hk1 Hpol Hskip Hrun. rewrite He' in He1. simplify_eq.
+    destruct Hcl as [(Hk' & Hu & Hn & Hp)|(Hk' & _)].
+    2:{ exfalso. rewrite Hk' in Hk1. by apply (pool_prefix_not_pod_key _ q Wq) in Hk1. }
+    rewrite (pod_running_env _ _ _ _ _ Henv), Hu in Hrun. apply (pod_running_empty_uid _ _ _ (e_uid e)) in Hrun.
+    destruct Henv as (_ & _ & _ & Hs & _). apply (verdict_pod_ext w); [done|]. rewrite Hp.
+    apply Hd; try done; try congruence. eapply resync_skip_cleared; [| | | |exact Hskip]; congruence.
+Qed.
+
+(** the item of [x] settles [x] *)
+Lemma done_at_item w x o ocl w' r :
+  Inv2 (w_ipam w) → resync_section w x o ocl no_faults = (w', r) → r ≠ SStuck → done_at w' x.
+Proof.
+  intros Hi Hres Hr. pose proof (resync_section_cases w x o ocl no_faults) as Hc.
+  destruct (i_alloc (w_ipam w) !! x) as [e|] eqn:He.
+  2:{ rewrite Hres in Hc. injection Hc as -> _. intros e q He'. congruence. }
+  cbv zeta in Hc. destruct (resync_skip e _) eqn:Hs.
+  { rewrite Hres in Hc. injection Hc as -> _. intros e1 q He1 Wq Hk _ Hskip _. rewrite He in He1. simplify_eq.
+    rewrite Hk, (parse_pod_key q Wq) in Hs. congruence. }
+  destruct (pod_running _ _ _ _) eqn:Hrn.
+  { rewrite Hres in Hc. injection Hc as -> _. intros e1 q He1 Wq Hk _ _ Hrun. rewrite He in He1. simplify_eq.
+    rewrite Hk, (parse_pod_key q Wq) in Hrn. change (pod_running w (pd_ns q) (pd_name q) (e_uid e1) = true) in Hrn. congruence. }
+  destruct Hc as [(w1 & r1 & _ & _ & Hres1 & [-> |Hf])|(w1 & Hpre & Hres1)].
+  { rewrite Hres in Hres1. by simplify_eq. }
+  { done. }
+  rewrite Hres in Hres1. injection Hres1 as -> ->.
+  destruct (pre_cleared_facts w w1 (e_key e) Hi Hpre) as (Hi1 & Hsk & Hc1 & Hall). destruct Hpre as [Henv1 _].
+  set (k := Keys.parse_key (e_key e)) in *.
+  destruct (unbind_any_frame w1 k (e_policy e) o no_faults Hi1) as (Henv2 & Hi2 & Hc2).
+  unfold k in Hc2 at 1 2. rewrite parse_key_key in Hc2.
+  pose proof (rchg_trans _ _ _ _ _ (rchg_KK _ (Keys.pool_prefix k) _ _ Hc1) Hc2) as Hc.
+  intros e' q He' Wq Hk' Hpol' Hskip' Hrun'.
+  (* the key of the item is the pod key *)
+  assert (e_key e = pod_key q ∧ e_policy e' = e_policy e) as [Hk Hp].
+  { destruct (Hc x) as [E|(e0 & He0 & Hk0 & [Hn|(e1 & He1 & Hcl)])].
+    - rewrite E, He in He'. by simplify_eq.
+    - congruence.
+    - rewrite He in He0. rewrite He' in He1. simplify_eq. destruct Hcl as [(Hk1 & _ & _ & Hp1)|(Hk1 & _)]; [split; congruence|].
+      exfalso. rewrite Hk1 in Hk'. by apply (pool_prefix_not_pod_key _ q Wq) in Hk'. }
+  assert (k = keyobj_of q) as Ek by (unfold k; by rewrite Hk, (parse_pod_key q Wq)).
+  rewrite Ek in *. clear k Ek. rewrite Hp in *.
+  destruct (Hall x e He eq_refl) as (e1 & He1 & Hk1 & Hp1).
+  pose proof (unbind_any_cases w1 (keyobj_of q) (e_policy e) o no_faults Hpol') as Hv.
+  change (Keys.ko_key (keyobj_of q)) with (pod_key q) in Hv. change (Keys.ko_pod (keyobj_of q)) with (pd_name q) in Hv.
+  specialize (Hv (λ E, pool_prefix_not_pod_key (keyobj_of q) q Wq (eq_sym E)) (pod_index_pod_key q Wq)).
+  destruct (unbind_any w1 (keyobj_of q) (e_policy e) o no_faults) as [w2 r2] eqn:Eu. cbn [fst snd] in *.
+  assert (r2 ≠ SStuck) as Hr2 by (intros ->; done).
+  assert (w_sts w2 = w_sts w1) as Hs2 by (by destruct Henv2 as (_ & _ & _ & ? & _)).
+  destruct (policy_verdict w1 (keyobj_of q) (e_policy e)) eqn:Ev.
+  - exfalso. symmetry in Hv. rewrite Hk in Hk1.
+    pose proof (release_key_complete w1 _ _ no_faults _ _ Hi1 eq_refl Hv Hr2 x e1 He1 Hk1). congruence.
+  - by apply (verdict_pod_ext w1 w2).
+  - exfalso. symmetry in Hv. rewrite Hk in Hk1.
+    destruct (reserve_key_complete w1 _ _ _ no_faults _ _ Hi1 eq_refl Hv Hr2 x e1 He1 Hk1) as (e2 & He2 & Hk2 & _).
+    rewrite He' in He2. simplify_eq. rewrite Hk2 in Hk'. by apply (pool_prefix_not_pod_key _ q Wq) in Hk'.
+Qed.
+
+Lemma resync_pass_done w items w' : resync_pass w items w' → Inv2 (w_ipam w) →
+  Inv2 (w_ipam w') ∧ same_env w w' ∧
+  (∀ x, is_Some (i_alloc (w_ipam w') !! x) → is_Some (i_alloc (w_ipam w) !! x)) ∧
+  (∀ x, x ∈ items ∨ done_at w x → done_at w' x).
+Proof.
+  induction 1 as [w|w ip items o ocl w1 r w' Hres Hr Hpass IH]; intros Hi.
+  { split_and!; [done|apply same_env_refl|done|]. intros x [Hx|Hx]; [by apply elem_of_nil in Hx|done]. }
+  destruct (resync_section_frame w ip o ocl no_faults Hi) as (Henv & Hi1 & Hch). rewrite Hres in Henv, Hi1, Hch. cbn [fst] in *.
+  destruct (IH Hi1) as (Hi' & Henv' & Hdom & Hdone). split_and!; [done|by eapply same_env_trans| |].
+  - intros x Hx. apply Hdom in Hx. destruct Hch as [E|(e & _ & _ & _ & Hc)]; [by rewrite <- E|by eapply rchg_dom].
+  - intros x [Hx|Hx].
+    + apply elem_of_cons in Hx as [-> |Hx]; apply Hdone; [right|by left]. exact (done_at_item w ip o ocl w1 r Hi Hres Hr).
+    + apply Hdone. right. pose proof (done_at_stable w ip o ocl no_faults x Hi Hx) as H. by rewrite Hres in H.
+Qed.
+
+Lemma resync_pass_exact_l w items w' :
+  Inv2 (w_ipam w) → (∀ x, is_Some (i_alloc (w_ipam w) !! x) → x ∈ items) → resync_pass w items w' →
+  ∀ x e q, i_alloc (w_ipam w') !! x = Some e → wf_pod q → e_key e = pod_key q → e_policy e ≤ 2 →
+           resync_skip e (keyobj_of q) = false → pod_running w' (pd_ns q) (pd_name q) (e_uid e) = false →
+           policy_verdict w' (keyobj_of q) (e_policy e) = KeepForPod.
+Proof.
+  intros Hi Hcov Hpass x e q He. destruct (resync_pass_done _ _ _ Hpass Hi) as (_ & _ & Hdom & Hdone).
+  apply (Hdone x); [|done]. left. apply Hcov, Hdom. by eexists.
+Qed.
